@@ -3853,7 +3853,9 @@ def _fix_duplicate_regular_imports(source: str) -> str:
     import_aliases = collections.defaultdict(set)
     import_nodes = collections.defaultdict(list)
 
-    for node in core.walk(root, ast.Import):
+    # Only module level imports are duplicates of each other: an import inside a function or
+    # under a condition binds the name in another scope, or only sometimes.
+    for node in core.filter_nodes(root.body, ast.Import):
         for alias in node.names:
             asname = (
                 alias.asname
@@ -3862,19 +3864,19 @@ def _fix_duplicate_regular_imports(source: str) -> str:
             )
             name = alias.name
 
-            import_nodes[asname].append(node)
+            import_nodes[(name, asname)].append(node)
             import_aliases[name].add(asname)
 
     replacements = {}
     removals = set()
 
-    for asname, nodes in import_nodes.items():
+    for (name, asname), nodes in import_nodes.items():
         if len(nodes) > 1:
             for node in nodes[1:]:
                 new_aliases = {
                     (alias.name, alias.asname if alias.asname != alias.name else None)
                     for alias in node.names
-                    if (alias.asname or alias.name) != asname
+                    if (alias.name, alias.asname or alias.name) != (name, asname)
                 }
                 new_names = [
                     ast.alias(name=name, asname=asname)
